@@ -223,6 +223,10 @@ pub struct Finding {
     /// minimal concrete case (engine case string)
     pub witness: String,
     pub text: String,
+    /// "thorough": the finding's cases exist only in the thorough space; the quick tier neither
+    /// re-runs its witness nor lets it suppress anything
+    #[serde(default)]
+    pub tier: Option<String>,
 }
 
 impl Finding {
@@ -497,6 +501,32 @@ pub fn run_one_isolated(engine: &dyn Engine, tier: Tier, case: &str, active: &Ha
     }
 }
 
+/// several isolated runs at once (one subprocess each, at most 8 at a time), results in order
+pub fn run_many_isolated(engine: &dyn Engine, tier: Tier, cases: &[&str], active: &HashSet<String>) -> Vec<Vec<Failure>> {
+    let id = engine.id();
+    let horizon = engine.horizon_s();
+    let mut outs: Vec<Option<RunOutput>> = cases.iter().map(|_| None).collect();
+    for (chunk_i, chunk) in cases.chunks(8).enumerate() {
+        let rs: Vec<RunOutput> = std::thread::scope(|sc| {
+            let hs: Vec<_> = chunk.iter().map(|c| sc.spawn(move || run_case_subprocess(id, tier, c, active, horizon))).collect();
+            hs.into_iter().map(|h| h.join().expect("isolated run thread")).collect()
+        });
+        for (j, r) in rs.into_iter().enumerate() {
+            outs[chunk_i * 8 + j] = Some(r);
+        }
+    }
+    outs.into_iter()
+        .zip(cases.iter())
+        .map(|(r, c)| {
+            let r = r.unwrap();
+            match r.died {
+                Some(why) => vec![death_failure(engine, c, &why)],
+                None => r.failures,
+            }
+        })
+        .collect()
+}
+
 struct WorkerHandle {
     shard: usize,
     child: std::process::Child,
@@ -537,31 +567,29 @@ pub fn check_main(engine: &dyn Engine, tier: Tier) -> i32 {
     let t0 = Instant::now();
     let id = engine.id();
     let seed: i64 = std::env::var("VERIF_SEED").ok().and_then(|s| s.parse().ok()).unwrap_or(0);
-    let findings = load_findings(id);
+    let findings: Vec<Finding> = load_findings(id).into_iter().filter(|k| k.tier.as_deref().map(|t| t == tier.name()).unwrap_or(true)).collect();
     let mut notes: Vec<String> = vec![];
     let mut violations: Vec<(String, Vec<Failure>)> = vec![];
 
     // 1. witnesses of known findings
     let mut active: HashSet<String> = HashSet::new();
     let none: HashSet<String> = HashSet::new();
-    for k in &findings {
-        let fs = run_one_isolated(engine, tier, &k.witness, &none);
-        if k.is_open() {
-            if fs.iter().any(|f| k.matches(f)) {
-                active.insert(k.id.clone());
-            } else {
-                notes.push(format!("known finding {} no longer reproduces on its witness; it suppresses nothing in this run", k.id));
-            }
+    let open: Vec<&Finding> = findings.iter().filter(|k| k.is_open()).collect();
+    let open_cases: Vec<&str> = open.iter().map(|k| k.witness.as_str()).collect();
+    for (k, fs) in open.iter().zip(run_many_isolated(engine, tier, &open_cases, &none)) {
+        if fs.iter().any(|f| k.matches(f)) {
+            active.insert(k.id.clone());
+        } else {
+            notes.push(format!("known finding {} no longer reproduces on its witness; it suppresses nothing in this run", k.id));
         }
     }
     // fixed findings: their witnesses must pass (given the active open findings)
-    for k in &findings {
-        if !k.is_open() {
-            let fs = run_one_isolated(engine, tier, &k.witness, &active);
-            let bad: Vec<Failure> = fs.into_iter().filter(|f| classify(f, &findings, &active).is_none()).collect();
-            if !bad.is_empty() {
-                violations.push((k.witness.clone(), bad));
-            }
+    let fixed: Vec<&Finding> = findings.iter().filter(|k| !k.is_open()).collect();
+    let fixed_cases: Vec<&str> = fixed.iter().map(|k| k.witness.as_str()).collect();
+    for (k, fs) in fixed.iter().zip(run_many_isolated(engine, tier, &fixed_cases, &active)) {
+        let bad: Vec<Failure> = fs.into_iter().filter(|f| classify(f, &findings, &active).is_none()).collect();
+        if !bad.is_empty() {
+            violations.push((k.witness.clone(), bad));
         }
     }
 
